@@ -40,6 +40,7 @@ type Contract struct {
 	SplitHi    int64
 	Bounded    string // non-empty: this is a bounded stand-in (harness); text states the bound
 	PureParams []string // function-typed parameters modelled as uninterpreted pure functions
+	Impl       map[string]string // interface type name -> concrete type the precondition fixes
 	Reveal     []string // opaque spec functions whose definition is made available to this function's queries
 	Loops      map[int]*LoopSpec
 	Inline     bool
@@ -84,7 +85,7 @@ type ContractFile struct {
 }
 
 var clauseKeywords = map[string]bool{"requires": true, "ensures": true, "claims": true, "modifies": true, "panics_when": true, "loop": true,
-	"inline": true, "trusted": true, "nobody": true, "var": true, "assume": true, "prove": true, "props": true, "apply": true, "reveal": true, "unroll_calls": true, "bounded": true, "split": true, "pure_param": true}
+	"inline": true, "trusted": true, "nobody": true, "var": true, "assume": true, "prove": true, "props": true, "apply": true, "reveal": true, "unroll_calls": true, "bounded": true, "split": true, "pure_param": true, "impl": true}
 
 func parseContractFile(path, pkgPath string) (*ContractFile, error) {
 	data, err := os.ReadFile(path)
@@ -261,6 +262,16 @@ func parseContractFile(path, pkgPath string) (*ContractFile, error) {
 			curSlot = nil
 		case "pure_param":
 			cur.PureParams = append(cur.PureParams, fields[1:]...)
+			curSlot = nil
+		case "impl":
+			// impl <interface type name> <concrete type>
+			if len(fields) != 3 {
+				return nil, fmt.Errorf("%s:%d: impl <interface> <concrete type>", path, ln+1)
+			}
+			if cur.Impl == nil {
+				cur.Impl = map[string]string{}
+			}
+			cur.Impl[fields[1]] = fields[2]
 			curSlot = nil
 		case "split":
 			if len(fields) != 4 {
